@@ -37,8 +37,29 @@ def per_asset_rules(ctx, m, names=None, RULE="per-asset"):
     BF = books_f[0]
     pub = {f.name: f for f in ctx.prog.find(crate="bourse_book", adt="Market") if f.pub and f.impl_trait is None}
 
+    from analysis.typestate import _elem
+    from analysis.origin import strip
+
     def book_index(e):
-        return [x for x in walk(e) if x[0] == "index" and fld(x[1], BF)]
+        """element accesses of the book array inside e, however spelled (books[i], books.get(i) matched as Some, ..),
+        as ("index", container, index) triples"""
+        out = []
+        for x in walk(e):
+            el = _elem(x) if isinstance(x, tuple) and x and x[0] in ("index", "call", "field") else None
+            if el is not None and fld(strip(el[0]), BF):
+                t = ("index", el[0], strip(el[1]))
+                if t not in out:
+                    out.append(t)
+        return out
+
+    def only_lookup_guards(c):
+        """the call is unconditional, or conditional only on the lookup of its own book having succeeded (the other
+        branch aborts, exactly like the bounds check of books[i])"""
+        for a in c.guards:
+            if a[0] == "variant" and a[2] == ("Some",) and a[1][0] == "call" and a[1][4] in ("get", "get_mut") and fld(strip(a[1][2][0]), BF):
+                continue
+            return False
+        return True
     for name, spec in PER_ASSET.items():
         if names is not None and name not in names:
             continue
@@ -46,7 +67,7 @@ def per_asset_rules(ctx, m, names=None, RULE="per-asset"):
         if f is None:
             ctx.lost(RULE, "Market::" + name)
             continue
-        q = m.q(f)
+        q = m.qi(f)      # private helpers (`fn book_mut(&mut self, asset)`) spliced in
         if spec is None:
             r = q.ret()
             ix = book_index(r)
@@ -55,7 +76,7 @@ def per_asset_rules(ctx, m, names=None, RULE="per-asset"):
             continue
         target, mode = spec
         calls = [c for c in q.calls(target) if c.target is not None and (c.target.impl_adt or "").endswith("orderbook::OrderBook")]
-        if len(calls) != 1 or calls[0].guards:
+        if len(calls) != 1 or not only_lookup_guards(calls[0]):
             ctx.bad(RULE, name + "|forward", ctx.loc(f), "Market::%s does not forward to OrderBook::%s exactly once, unconditionally" % (name, target))
             continue
         c = calls[0]
@@ -103,7 +124,20 @@ def run(ctx):
     pub = {f.name: f for f in ctx.prog.find(crate="bourse_book", adt="Market") if f.pub and f.impl_trait is None}
     known = set(PER_ASSET) | set(ALL_ASSET) | set(FAN_OUT) | {"new", "get_time", "level_2_data", "process_event", "save_json", "load_json"}
     unknown = sorted(set(pub) - known)
-    ctx.check(not unknown, "shape", "api-covered", "-", "all %d public Market methods are covered by a forwarding rule" % len(pub), "public Market methods without a rule: %s" % unknown)
+    # public methods beyond the ones the rules name: a query (`&self`: cannot write, no interior mutability exists) needs no rule;
+    # a mutator is accepted iff it changes the market only THROUGH the ruled public methods (every write below `self` happens
+    # inside a call of one of them), so that per-asset independence and the shared clock are inherited from those
+    uncovered = []
+    for name in unknown:
+        f = pub[name]
+        s0 = m.w.effects.summary(f)
+        direct = [(loc, what) for (loc, _b, _sp, what) in s0["sites"] if loc.root[0] in ("param", "unknown") and not (what.startswith("call ") and what[5:] in known and what[5:] != "new")]
+        if direct or s0["unknown"]:
+            uncovered.append("%s (writes %s)" % (name, sorted({what for _l, what in direct}) or s0["unknown"][:1]))
+        else:
+            ctx.note("Market::%s is not named by a forwarding rule: %s" % (name, "read-only query" if not s0["writes"] else "changes the market only through " + ", ".join(sorted({w[5:] for (_l, _b, _s, w) in s0["sites"] if w.startswith("call ")}))))
+    ctx.check(not uncovered, "shape", "api-covered", "-", "all %d public Market methods are covered by a forwarding rule (%d further ones are read-only or built on the ruled methods)" % (len(pub), len(unknown)),
+              "public Market methods that write the books directly and have no rule: %s" % uncovered)
 
     def book_index(e):
         """index expression used to reach a book in `e` (the receiver of a forwarded call)"""
@@ -167,7 +201,8 @@ def run(ctx):
     ok = len(cl) == 1
     if ok:
         cq = cl[0][0]
-        cs = cq.calls("new")
+        is_book_new = lambda c: c.target is not None and (c.target.impl_adt or "").endswith("orderbook::OrderBook")  # noqa: E731
+        cs = [c for c in cq.calls("new") if is_book_new(c)]
         ok = len(cs) == 1 and cs[0].args[1][0] == "field" or (len(cs) == 1)
         if len(cs) == 1:
             a = cs[0].args
@@ -175,7 +210,7 @@ def run(ctx):
     if not ok and len(cl) == 1:
         # `tick_size.map(|t| OrderBook::new(start_time, t, trading))`: array::map keeps positions
         mp = [c for c in nq.calls("map") if c.args and c.args[0][0] == "param" and c.args[0][2] == "tick_size" and "array" in c.resolved]
-        cs = cl[0][0].calls("new")
+        cs = [c for c in cl[0][0].calls("new") if c.target is not None and (c.target.impl_adt or "").endswith("orderbook::OrderBook")]
         if len(mp) == 1 and len(cs) == 1:
             a = cs[0].args
             ok = a[1][0] == "param" and a[1][1] == 2 and "start_time" in render(a[0]) and "trading" in render(a[2])
